@@ -63,26 +63,27 @@ Theorem C13_view_closed : forall S F q,
   forall h, In h (handles_of q (ask fixed S F q)) -> visible S F h = true.
 Proof. exact view_closed. Qed.
 
-(** the three views separately (the statement above restricted to the lookups each consumer uses) *)
-Theorem C13_view_validator_erase_eq : forall S F G q, in_view_validator q = true ->
+(** the three views separately: [view_x fixed S F] is the partial function of the lookups consumer x
+    makes; [view_equiv S F v1 v2]: v1 and v2 agree on every lookup applied to visible pointers.
+    view_validator: root types, validator namedType, kind, GetField, getPossibleTypes, enum values,
+    input fields, directive lookup.  view_executor: root types, executor namedType, kind, GetField,
+    abstract-type candidates, doesFragmentTypeApply, enum values, input fields, directive lookup. *)
+Theorem C13_view_validator_erase_eq : forall S F G,
   schema_ok S = true -> subset F G = true ->
-  (forall h, In h (handle_args q) -> visible S F h = true) ->
-  ask fixed S F q = ask fixed (erase S F) G q.
-Proof. exact (fun S F G q _ => view_erase_eq S F G q). Qed.
+  view_equiv S F (view_validator fixed S F) (view_validator fixed (erase S F) G).
+Proof. exact view_validator_erase_eq. Qed.
 
-Theorem C13_view_executor_erase_eq : forall S F G q, in_view_executor q = true ->
+Theorem C13_view_executor_erase_eq : forall S F G,
   schema_ok S = true -> subset F G = true ->
-  (forall h, In h (handle_args q) -> visible S F h = true) ->
-  ask fixed S F q = ask fixed (erase S F) G q.
-Proof. exact (fun S F G q _ => view_erase_eq S F G q). Qed.
+  view_equiv S F (view_executor fixed S F) (view_executor fixed (erase S F) G).
+Proof. exact view_executor_erase_eq. Qed.
 
-(** feature_introspect_eq: types list, __type(name:), kind, fields, interfaces, possibleTypes,
-    enumValues, inputFields, root types, directives *)
-Theorem C13_feature_introspect_eq : forall S F G q, in_view_introspection q = true ->
+(** feature_introspect_eq — view_introspection: types list, __type(name:), kind, fields,
+    interfaces, possibleTypes, enumValues, inputFields, root types, directives *)
+Theorem C13_feature_introspect_eq : forall S F G,
   schema_ok S = true -> subset F G = true ->
-  (forall h, In h (handle_args q) -> visible S F h = true) ->
-  ask fixed S F q = ask fixed (erase S F) G q.
-Proof. exact (fun S F G q _ => view_erase_eq S F G q). Qed.
+  view_equiv S F (view_introspection fixed S F) (view_introspection fixed (erase S F) G).
+Proof. exact view_introspection_erase_eq. Qed.
 
 (** every consumer program: same result, same trace of lookups *)
 Theorem C13_noninterference : forall (A : Type) (p : prog A) S F G,
@@ -187,7 +188,7 @@ Proof. exact roots_refuted_before_fix. Qed.
 (** new: a directive argument of a gated type was accepted and handed to every request *)
 Theorem C13_directive_argument_refuted_before_fix :
   schema_ok_gen pinned_dirs W_dir = true /\
-  In (nm "E") (handles_of QIntroDirectives (ask pinned_dirs W_dir [] QIntroDirectives)) /\
+  In (nm "E") (handles_of QDirectives (ask pinned_dirs W_dir [] QDirectives)) /\
   visible W_dir [] (nm "E") = false /\
   schema_ok W_dir = false.
 Proof. exact dirs_refuted_before_fix. Qed.
